@@ -3,6 +3,7 @@ package props
 import (
 	"context"
 	"fmt"
+	"io"
 	"sync"
 
 	goat "github.com/avos-io/goat"
@@ -40,7 +41,7 @@ func c17List(tier string) []c17Case {
 			out = append(out, c17Case{f, v, k, tierN(tier, 30, 120), []int{1, 4, 16}[i%3]})
 		}
 	}
-	for _, v := range []string{"source-equal", "source-different", "header-absent", "source-empty", "source-different-with-proxy-record", "source-empty-with-proxy-record", "source-equal-with-empty-route", "mixed"} {
+	for _, v := range []string{"source-equal", "source-different", "header-absent", "source-empty", "source-different-with-proxy-record", "source-empty-with-proxy-record", "source-equal-with-empty-route", "source-different-relayed-by-sender", "mixed"} {
 		add("source", v, 3)
 	}
 	for _, v := range []string{"stuck-writer", "failing-reader", "failing-writer", "dial-error", "slow-dial"} {
@@ -208,7 +209,7 @@ func c17Run(tier string, seed int64, idx int) *core.Result {
 				var e *wire.Rpc
 				kind := c.Variant
 				if kind == "mixed" {
-					kind = []string{"source-equal", "source-different", "header-absent", "source-empty", "source-different-with-proxy-record", "source-empty-with-proxy-record", "source-equal-with-empty-route"}[n%7]
+					kind = []string{"source-equal", "source-different", "header-absent", "source-empty", "source-different-with-proxy-record", "source-empty-with-proxy-record", "source-equal-with-empty-route", "source-different-relayed-by-sender"}[n%8]
 				}
 				switch kind {
 				case "source-equal":
@@ -228,6 +229,10 @@ func c17Run(tier string, seed int64, idx int) *core.Result {
 					// attached connection and knows no such exception
 					e = env("a1", "a1", 1500+n)
 					e.Header.ProxyRecord = []string{"some-proxy"}
+				case "source-different-relayed-by-sender":
+					// ... or as one relayed by the sending peer itself
+					e = env("a1", "a1", 1700+n)
+					e.Header.ProxyRecord = []string{"a0"}
 				case "source-empty-with-proxy-record":
 					e = env("", "a1", 2500+n)
 					e.Header.ProxyRecord = []string{"p1", "p2"}
@@ -270,6 +275,12 @@ func c17Run(tier string, seed int64, idx int) *core.Result {
 			case "failing-reader":
 				bad = mkPeer("bad", true)
 				guarded(tier, res, "Proxy.AddClient", func() { px.AddClient("bad", bad.link.B) })
+				switch idx % 3 {
+				case 1: // a transport bound to a session context of its own reports its end like this
+					bad.link.B.SetReadErr(fmt.Errorf("session ended: %w", context.Canceled))
+				case 2:
+					bad.link.B.SetReadErr(io.EOF)
+				}
 				bad.link.B.FailRead()
 			case "failing-writer":
 				bad = mkPeer("bad", true)
@@ -457,11 +468,11 @@ func c17Run(tier string, seed int64, idx int) *core.Result {
 
 func init() {
 	core.Register(&core.Prop{
-		ID:    "C17",
-		Level: "fault_enumeration",
-		Rule:  "families: (source) a peer attached as a0 sends envelopes whose source is equal / different (claims a1) / empty / whose header is absent, then good ones; (isolation) a third peer in the role {stuck writer, failing reader, failing writer, dial error, dial blocking on a gate} while envelope-by-envelope traffic a0<->a1 must keep arriving; (reattach) a1 re-attached before / after the old connection's read (or write) fails; (cancel-busy) the context is cancelled while the serve loop is held inside the rewriting function or the disconnect callback and 2..8 peer read loops are waiting to hand it an envelope; each of the first three combined with cancellation of the proxy's context after every step (quick: 4 positions) and at the end, after which Serve must have returned and no goroutine with Proxy/proxyClient frames may remain at a final state. Each child runs one case (the proxy's goroutines must never leak into another case). Distinct = case tuples; all non-trivial.",
-		Plan:  func(tier string, seed int64) int { return len(c17List(tier)) },
-		Run:   c17Run,
+		ID:         "C17",
+		Level:      "fault_enumeration",
+		Rule:       "families: (source) a peer attached as a0 sends envelopes whose source is equal / different (claims a1) / empty / whose header is absent, then good ones; (isolation) a third peer in the role {stuck writer, failing reader, failing writer, dial error, dial blocking on a gate} while envelope-by-envelope traffic a0<->a1 must keep arriving; (reattach) a1 re-attached before / after the old connection's read (or write) fails; (cancel-busy) the context is cancelled while the serve loop is held inside the rewriting function or the disconnect callback and 2..8 peer read loops are waiting to hand it an envelope; each of the first three combined with cancellation of the proxy's context after every step (quick: 4 positions) and at the end, after which Serve must have returned and no goroutine with Proxy/proxyClient frames may remain at a final state. Each child runs one case (the proxy's goroutines must never leak into another case). Distinct = case tuples; all non-trivial.",
+		Plan:       func(tier string, seed int64) int { return len(c17List(tier)) },
+		Run:        c17Run,
 		Exhaustive: func(string) bool { return false },
 		RequiredStats: func(string) []string {
 			return []string{"hostile_source_envelopes", "healthy_envelopes_delivered", "failure_reports_checked", "reattach_checked", "shutdowns_checked", "hook:proxy.report", "cancel_while_serve_loop_busy"}
